@@ -40,7 +40,7 @@ theorem accepted_reparses (depth : Nat) (s : List Nat) (f : Filter)
 
 /-! non-vacuity: an unbalanced nested input whose error span is inside the 4-byte input, and
     an accepted one -/
-example : parseFilterText 10 [40, 38, 40, 61] = .error (.syntax 2 1) := by decide
-example : ∃ f, parseFilterText 10 [32, 40, 99, 110, 61, 42, 41, 10] = .ok f := ⟨.present [99, 110], by decide⟩
+example : parseFilterText 10 [40, 38, 40, 61] = .error (.syntax 2 1) := by rfl
+example : ∃ f, parseFilterText 10 [32, 40, 99, 110, 61, 42, 41, 10] = .ok f := ⟨.present [99, 110], by rfl⟩
 
 end Verif.C15
